@@ -797,6 +797,7 @@ type memConn struct {
 	local   memAddr
 	in      chan memPkt
 	peer    *memConn
+	hub     *memNet // when set, WriteTo routes by destination address (see w3.go)
 	closed  chan struct{}
 	once    sync.Once
 	mu      sync.Mutex
@@ -849,14 +850,20 @@ func (timeoutErr) Error() string   { return "i/o timeout" }
 func (timeoutErr) Timeout() bool   { return true }
 func (timeoutErr) Temporary() bool { return true }
 
-func (c *memConn) WriteTo(p []byte, _ net.Addr) (int, error) {
+func (c *memConn) WriteTo(p []byte, to net.Addr) (int, error) {
 	select {
 	case <-c.closed:
 		return 0, net.ErrClosed
 	default:
 	}
+	dst := c.peer
+	if c.hub != nil {
+		if dst = c.hub.lookup(to); dst == nil {
+			return len(p), nil // nobody there: dropped
+		}
+	}
 	select {
-	case c.peer.in <- memPkt{append([]byte(nil), p...), c.local}:
+	case dst.in <- memPkt{append([]byte(nil), p...), c.local}:
 	default: // queue full: drop
 	}
 	return len(p), nil
@@ -1052,18 +1059,12 @@ type job struct {
 	res     hsResult
 }
 
-func (e *engine) runHistory() {
-	ctx, cancel := context.WithCancel(context.Background())
-	defer cancel()
-	victim, attacker, other := e.newID(), e.newID(), e.newID()
-	refuseWait, okWait := 1500*time.Millisecond, 8*time.Second
-
-	ck := e.newCertKey(1)
-	ck2 := e.newCertKey(1)
+// forgedChains: every way the adversary presents certificates (it always holds the certificate
+// key; what it does not hold is the victim's identity key). Each entry yields the chain, the
+// identity it claims, and whether the chain is a valid binding for that identity.
+func (e *engine) forgedChains(victim, attacker *idKey, ck, ck2 *certKey) map[string]func() ([][]byte, peer.ID, bool) {
 	one := func(b bindOpts) []pkix.Extension { return []pkix.Extension{bindingExt(b)} }
-	// the adversary always holds the certificate key (the TLS handshake itself succeeds); what it
-	// does not hold is the victim's identity key
-	forged := map[string]func() ([][]byte, peer.ID, bool){
+	return map[string]func() ([][]byte, peer.ID, bool){
 		"replayed-extension": func() ([][]byte, peer.ID, bool) {
 			// a genuine extension of the victim (made for the victim's own certificate key) on the adversary's certificate
 			vid, err := p2ptls.NewIdentity(victim.sk)
@@ -1108,6 +1109,19 @@ func (e *engine) runHistory() {
 			return [][]byte{mint(mintOpts{key: ck, exts: one(honestBind(attacker, ck))})}, attacker.id, true
 		},
 	}
+}
+
+func (e *engine) runHistory() {
+	ctx, cancel := context.WithCancel(context.Background())
+	defer cancel()
+	victim, attacker, other := e.newID(), e.newID(), e.newID()
+	refuseWait, okWait := 1500*time.Millisecond, 8*time.Second
+
+	ck := e.newCertKey(1)
+	ck2 := e.newCertKey(1)
+	// the adversary always holds the certificate key (the TLS handshake itself succeeds); what it
+	// does not hold is the victim's identity key
+	forged := e.forgedChains(victim, attacker, ck, ck2)
 	var jobs []*job
 	add := func(via, gen string, hDials bool, expect string) {
 		if via == "pconn" && !hDials && expect != "any" {
@@ -1246,11 +1260,12 @@ func (e *engine) runHistory() {
 }
 
 func (e *engine) run() {
-	e.rep.Rule = "real X.509 certificates minted with crypto/x509 (honest via NewIdentity and hand-minted for Ed25519/P-256/P-384/RSA certificate keys; re-signed by another key; corrupt certificate signature; extension missing / near-miss OIDs / duplicated in both orders / corrupted, truncated, random, empty ASN.1; signature over another key, other prefixes, bit-flipped, empty, extended; foreign signer; replayed extension; malformed key messages; expired / not yet valid; EKU; unknown critical extensions; 0/2/3-certificate chains; unparsable certificates; unknown key algorithm) through PubKeyFromCertChain and the VerifyPeerCertificate closure of ConfigForPeer(remote) for remote ∈ {any, right, wrong}; plus real in-memory QUIC/TLS handshakes (honest↔honest and honest↔adversary with forged certificates, both roles, with/without expected peer); distinct = distinct op line"
+	e.rep.Rule = "real X.509 certificates minted with crypto/x509 (honest via NewIdentity and hand-minted for Ed25519/P-256/P-384/RSA certificate keys; re-signed by another key; corrupt certificate signature; extension missing / near-miss OIDs / duplicated in both orders / corrupted, truncated, random, empty ASN.1; signature over another key, other prefixes, bit-flipped, empty, extended; foreign signer; replayed extension; malformed key messages; expired / not yet valid; EKU; unknown critical extensions; 0/2/3-certificate chains; unparsable certificates; unknown key algorithm) through PubKeyFromCertChain and the VerifyPeerCertificate closure of ConfigForPeer(remote) for remote ∈ {any, right, wrong}; plus real in-memory QUIC/TLS handshakes (honest↔honest and honest↔adversary with forged certificates, both roles, with/without expected peer); the tls.Config fields of ConfigForPeer / BuildIncomingTlsConf; sessions negotiated with a permissive tls.Config (8 forged / valid chains × both roles, and a client without certificate) handed to HandleSession / NewLink / DetermineSessionIdentity; histories on ONE pconn listener and handler (victim; adversary from the victim's address; honest peer, forger and certificate-less client concurrently; a client offering session resumption); transport/common/conn (stream-backed) and the transport/websocket HTTP endpoint (in-memory listener) vs adversary; distinct = distinct op line"
 	e.rep.Require("pkfc.ok", "pkfc.chainLen", "pkfc.noExt", "pkfc.x509", "pkfc.selfSig", "pkfc.asn1", "pkfc.pubKey", "pkfc.sigInvalid",
 		"vpc.ok", "vpc.certParse", "vpc.peerMismatch", "vpc.chainLen", "vpc.noExt", "vpc.x509", "vpc.selfSig", "vpc.asn1", "vpc.pubKey", "vpc.sigInvalid",
 		"signedext", "consts",
-		"hist.established.honest", "hist.refused.honest", "hist.established.adversary", "hist.refused.adversary", "hist.via-conn", "hist.via-pconn")
+		"hist.established.honest", "hist.refused.honest", "hist.established.adversary", "hist.refused.adversary", "hist.via-conn", "hist.via-pconn",
+		"config", "sess.established", "sess.refused", "sess.listen", "sess.dial", "lhist.established", "lhist.refused", "lhist.accounted", "conn.established", "conn.refused", "ws.established", "ws.refused")
 	// the constants the theorems are stated about are the specification's
 	want := "ok oid=" + oidStr(specOID) + " prefix=" + lib.Hex([]byte(specPrefix))
 	got := e.m.Query("tls.consts")
@@ -1271,6 +1286,7 @@ func (e *engine) run() {
 		}
 	}
 	e.runHistory()
+	e.runW3()
 }
 
 func main() {
